@@ -59,12 +59,14 @@ func main() {
 		tier := fs.String("tier", envOr("VERIF_TIER", "quick"), "quick|thorough")
 		budget := fs.Int("budget", 0, "override search budget in seconds")
 		keep := fs.Bool("keep", false, "keep the scratch directory")
+		native := fs.Bool("native", false, "cross-check: run the sequential (Native) harness configurations against the UN-rewritten tree")
 		if len(os.Args) < 3 {
 			infra("check needs a property id")
 		}
 		id := os.Args[2]
 		fs.Parse(os.Args[3:])
 		keepScratch = *keep
+		nativeMode = *native
 		os.Exit(check(id, *tier, *budget, *keep))
 	case "replay":
 		if len(os.Args) < 3 {
@@ -230,6 +232,11 @@ func prepare(tag string, pkgs []string, native bool) *scratch {
 
 var keepScratch bool
 
+// nativeMode: build the harness against the un-rewritten working tree (no simgen) and run only the harness
+// configurations marked Native (single-task, no scheduling dimension). A disagreement with the normal run would
+// point at the rewriter, not at hive.go. Evidence is not written in this mode.
+var nativeMode bool
+
 func (sc *scratch) cleanup() {
 	if keepScratch {
 		fmt.Fprintln(os.Stderr, "verif: scratch kept at", sc.dir)
@@ -280,7 +287,7 @@ func (sc *scratch) exec(j *job) error {
 			return fmt.Errorf("%v\n%s", err, tail(outb.String(), 4000))
 		}
 		return nil
-	case <-time.After(j.budget*3 + 180*time.Second):
+	case <-time.After(j.budget + j.budget/2 + 150*time.Second):
 		cmd.Process.Kill()
 		return errors.New("watchdog: worker exceeded its wall budget")
 	}
@@ -288,7 +295,7 @@ func (sc *scratch) exec(j *job) error {
 
 func tail(s string, n int) string {
 	if len(s) > n {
-		return s[len(s)-n:]
+		return s[:n/2] + "\n[...]\n" + s[len(s)-n/2:]
 	}
 	return s
 }
@@ -556,7 +563,22 @@ func check(id, tier string, budgetOverride int, keep bool) int {
 	}
 	seed := seedEnv()
 	t0 := time.Now()
-	sc := prepare(id+"-"+tier, pkgsOf(p), false)
+	if nativeMode {
+		var subs []Sub
+		for _, sb := range p.Subs {
+			if sb.Native {
+				subs = append(subs, sb)
+			}
+		}
+		if len(subs) == 0 {
+			fmt.Printf("verif: property=%s has no native (single-task) configuration\n", id)
+			return 0
+		}
+		cp := *p
+		cp.Subs = subs
+		p = &cp
+	}
+	sc := prepare(id+"-"+tier, pkgsOf(p), nativeMode)
 	defer sc.cleanup()
 	buildS := time.Since(t0).Seconds()
 	total := time.Duration(p.QuickS) * time.Second
@@ -604,7 +626,9 @@ func check(id, tier string, budgetOverride int, keep bool) int {
 		}
 	}
 	wall := time.Since(t0).Seconds()
-	writeEvidence(p, tier, seed, results, violations, wall, buildS, knownLines)
+	if !nativeMode {
+		writeEvidence(p, tier, seed, results, violations, wall, buildS, knownLines)
+	}
 	for _, l := range knownLines {
 		fmt.Println(l)
 	}
@@ -633,7 +657,11 @@ func firstLines(s string, n int) string {
 // report minimises a failure, writes the replay file and confirms it in a fresh process.
 func (sc *scratch) report(p *Prop, sub *Sub, fr *simrt.FailureRecord) string {
 	os.MkdirAll(filepath.Join(verifDir, "replays"), 0o755)
-	name := fmt.Sprintf("%s-%s-%s-%d-%d.json", p.ID, sub.Pkg, sub.Harness, fr.Seed, fr.Run)
+	cfgTag := ""
+	if sub.Config != "" {
+		cfgTag = "-" + strings.NewReplacer(",", "_", " ", "_", "/", "_").Replace(sub.Config)
+	}
+	name := fmt.Sprintf("%s-%s-%s%s-%d-%d.json", p.ID, sub.Pkg, sub.Harness, cfgTag, fr.Seed, fr.Run)
 	path := filepath.Join(verifDir, "replays", name)
 	rp := &simrt.Replay{Property: p.ID, Harness: sub.Pkg + "/" + sub.Harness, Config: sub.Config, Seed: fr.Seed, Run: fr.Run, Decisions: fr.Decisions, Signature: fr.Signature, Detail: fr.Failure.Detail}
 	raw := filepath.Join(sc.dir, "out", "raw-"+name)
